@@ -3,6 +3,7 @@
 drawing must be produced; free variables are exactly one per (element, parameter) unsubstituted and at most `f`
 substituted; CircuiTikZ has one component per element of the connections named as the circuit names it, with balanced
 begin/end; to_stack has balanced brackets and one entry per element.  BOUNDED - never counted as proved."""
+import collections
 import multiprocessing as mp
 import re
 import sys
@@ -15,7 +16,6 @@ from bounded import circuits_enum as ce  # noqa: E402
 from bounded.circuits_enum import E, S, P, INF  # noqa: E402
 
 CTX = {}
-TIKZ = re.compile(r"to\[([A-Za-z]+)=\$(.*?)\$\]")
 BEGIN_END = re.compile(r"\\(begin|end)\{([A-Za-z*]+)\}")
 
 
@@ -25,14 +25,14 @@ def _mix(i, p, k):
 
 # ------------------------------------------------------------------------------------------------- alphabet
 def tlm_variants():
-    r5, c5 = E("R", {"R": 5.0}), E("C", {"C": 2e-5}, "cb")
+    r5, c5 = E("R", {"R": 5.0}), E("C", {"C": 2e-5}, "c_b_1")
     return [
         E("Tlm"),
-        E("Tlm", {"L": 0.9}, "tl"),
+        E("Tlm", {"L": 0.9}, "tl_2_m"),
         E("Tlm", subs=(("Z_B", S()),)),                                                   # short inner boundary
         E("Tlm", subs=(("Z_B", S(P(r5, c5))),)),
         E("Tlm", {"L": 0.2}, subs=(("X_2", S(E("R", {"R": 2.0}))),)),                   # both phases resistive, open boundaries
-        E("Tlm", {"L": 0.2}, subs=(("X_2", S(E("R", {"R": 2.0}, "x2"))), ("Z_A", S(r5)), ("Z_B", S(c5)))),
+        E("Tlm", {"L": 0.2}, subs=(("X_2", S(E("R", {"R": 2.0}, "x_2"))), ("Z_A", S(r5)), ("Z_B", S(c5)))),
         E("Tlm", subs=(("Z_A", S(r5)), ("Z_B", S(E("R", {"R": 7.0})))),),
         E("Tlm", subs=(("Z_B", S(E("R", {"R": INF}))),)),                               # open by value
         E("Tlm", subs=(("Z_B", S(E("R", {"R": 0.0}))),)),                               # short by value
@@ -43,9 +43,9 @@ def tlm_variants():
 
 def register_alphabets():
     tv = tlm_variants()
-    rs = [lambda i, p: E("R", {"R": 100.0 * (p + 1)}), lambda i, p: E("R", {"R": 33.0 + p}, f"ct{p}"), lambda i, p: E("R", {"R": 10.0 + p}, f"a_{p}")]
-    xs = [lambda i, p: E("C", {"C": 1e-6 * (p + 1)}), lambda i, p: E("L", {"L": 1e-5 * (p + 1)}), lambda i, p: E("Q", {"Y": 1e-5, "n": 0.8}, "dl" + str(p)),
-          lambda i, p: E("W", {"Y": 1e-3, "n": 0.5}), lambda i, p: E("C", {"C": 2e-6}, f"c{p}")]
+    rs = [lambda i, p: E("R", {"R": 100.0 * (p + 1)}), lambda i, p: E("R", {"R": 33.0 + p}, ce.pool_label(i, p, 20)), lambda i, p: E("R", {"R": 10.0 + p}, ce.pool_label(i, p, 21))]
+    xs = [lambda i, p: E("C", {"C": 1e-6 * (p + 1)}), lambda i, p: E("L", {"L": 1e-5 * (p + 1)}), lambda i, p: E("Q", {"Y": 1e-5, "n": 0.8}, ce.pool_label(i, p, 22)),
+          lambda i, p: E("W", {"Y": 1e-3, "n": 0.5}), lambda i, p: E("C", {"C": 2e-6}, ce.pool_label(i, p, 23))]
     sp = [lambda i, p: E("R", {"R": 0.0}), lambda i, p: E("R", {"R": INF})]
     light = [t for k, t in enumerate(tv) if k not in (4, 5, 10)]      # the general (two resistive phases) and nested forms are slow in sympy: contexts part only
     ce.ALPHABETS["c20"] = [lambda i, p: rs[_mix(i, p, len(rs))](i, p), lambda i, p: xs[_mix(i, p, len(xs))](i, p),
@@ -81,16 +81,21 @@ REPRO = {
                  "want = {f'{k}_{e.get_label() or run[e]}' for e in els for k in e.get_values()}\nfree = {str(s) for s in ex.free_symbols} - {'f'}\nassert free == want, (sorted(free ^ want))\n"),
     "to_sympy(substitute=True)": "ex = c.to_sympy(substitute=True)\nassert {str(s) for s in ex.free_symbols} <= {'f'}, ex.free_symbols\n",
     "to_latex": "s = c.to_latex()\nassert isinstance(s, str) and s.startswith('Z = ') and len(s) > 4\n",
-    "to_circuitikz": ("import re\nsrc = c.to_circuitikz()\ntop = walk(c._elements, deep=False)\ncomps = re.findall(r'to\\[([A-Za-z]+)=\\$(.*?)\\$\\]', src)\n"
-                      "assert len(comps) == len(top), (len(comps), len(top))\n"
-                      "assert sorted(l.replace('{\\\\rm ', '').replace('}', '') for _, l in comps) == sorted(c.get_element_name(e) for e in top)\n"
+    "to_circuitikz": ("import re, collections\nsrc = c.to_circuitikz()\ntop = walk(c._elements, deep=False)\ncnt = c.generate_element_identifiers(running=False)\n"
+                      "KIND = {'R': 'R', 'C': 'capacitor', 'L': 'L', 'La': 'L', 'Q': 'cpe'}\n"
+                      "got = collections.Counter(re.findall(r'to\\[([A-Za-z]+)=(\\$.*?\\$)\\]', src))\n"
+                      "want = collections.Counter((KIND.get(e.get_symbol(), 'generic'), '$' + e.get_symbol() + '_{\\\\rm ' + str(e.get_label() or cnt[e]) + '}$') for e in top)\n"
+                      "assert sum(got.values()) == len(top), (sum(got.values()), len(top))\n"
+                      "assert got == want, (sorted((got - want).elements()), sorted((want - got).elements()))\n"
+                      "assert sorted(c.get_element_name(e) for e in top) == sorted(e.get_symbol() + '_' + str(e.get_label() or cnt[e]) for e in top)\n"
                       "stack = []\nfor kind, env in re.findall(r'\\\\(begin|end)\\{([A-Za-z*]+)\\}', src):\n    if kind == 'begin': stack.append(env)\n    else: assert stack and stack.pop() == env\n"
                       "assert not stack and src.count('\\\\begin{circuitikz}') == 1\n"),
     "to_stack": ("st = c.to_stack(); top = walk(c._elements, deep=False)\nopen_ = []\nfor text, obj in st:\n    if text in ('[', '('): open_.append((text, obj))\n"
                  "    elif text in (']', ')'):\n        t, o = open_.pop(); assert (t, text) in (('[', ']'), ('(', ')')) and o is obj\nassert not open_\n"
                  "ents = [o for t, o in st if t not in ('[', ']', '(', ')')]\nassert len(ents) == len(top) and all(a is b for a, b in zip(ents, top))\n"),
-    "to_drawing": ("d = c.to_drawing(); top = walk(c._elements, deep=False)\n"
-                   "assert len([x for x in d.elements for l in getattr(x, '_userlabels', []) if l.label]) == len(top)\n"),
+    "to_drawing": ("d = c.to_drawing(); top = walk(c._elements, deep=False); cnt = c.generate_element_identifiers(running=False)\n"
+                   "got = sorted(l.label for x in d.elements for l in getattr(x, '_userlabels', []) if l.label)\n"
+                   "want = sorted('$' + e.get_symbol() + '_{\\\\rm ' + str(e.get_label() or cnt[e]) + '}$' for e in top)\nassert got == want, (got, want)\n"),
 }
 
 
@@ -122,7 +127,8 @@ def eval_spec(spec, part, out):
 
     def fail(export, kind, what, function=None):
         tg = tag(feats, export, kind.replace("raises ", ""))
-        out["fails"].append((size, f"{export}:{tg}:{kind}", function or FUNCTION[export], f"circuit {ce.hand_cdc(spec)}: {what}", repro_for(spec, export)))
+        key = f"{export}:{kind}" if kind == "label-text-wrong" else f"{export}:{tg}:{kind}"     # the label text does not depend on the circuit's features
+        out["fails"].append((size, key, function or FUNCTION[export], f"circuit {ce.hand_cdc(spec)}: {what}", repro_for(spec, export)))
 
     # 1. symbolic expression, one variable per (element, parameter)
     try:
@@ -160,13 +166,19 @@ def eval_spec(spec, part, out):
         src = None
         fail("to_circuitikz", f"raises {type(exn).__name__}", repr(exn))
     if src is not None:
-        comps = TIKZ.findall(src)
-        names = sorted(c.get_element_name(e) for e in top)
-        got = sorted(lbl.replace(r"{\rm ", "").replace("}", "") for _, lbl in comps)
-        if len(comps) != len(top):
-            fail("to_circuitikz", "component count differs from element count", f"{len(comps)} components for {len(top)} elements")
-        elif got != names:
-            fail("to_circuitikz", "component names differ from element names", f"{got} vs {names}")
+        # per element: (component kind, exact label text); the text is derived here from (symbol, WHOLE label or per-type count)
+        cnt = c.generate_element_identifiers(running=False)
+        comps = collections.Counter(ce.TIKZ_COMPONENT.findall(src))
+        wantc = collections.Counter((ce.TIKZ_KIND.get(e.get_symbol(), "generic"), ce.diagram_label(e.get_symbol(), e.get_label() or cnt[e])) for e in top)
+        gt, wt = collections.Counter(t for _, t in comps.elements()), collections.Counter(t for _, t in wantc.elements())
+        if sum(comps.values()) != len(top):
+            fail("to_circuitikz", "component count differs from element count", f"{sum(comps.values())} components for {len(top)} elements")
+        elif gt != wt:
+            fail("to_circuitikz", "label-text-wrong", f"got {sorted((gt - wt).elements())}, required {sorted((wt - gt).elements())}")
+        elif comps != wantc:
+            fail("to_circuitikz", "component kind differs from element type", f"{sorted((comps - wantc).elements())}")
+        elif sorted(ce.diagram_label(*c.get_element_name(e).split("_", 1)) for e in top) != sorted(wt.elements()):
+            fail("to_circuitikz", "component names differ from element names", f"{sorted(wt.elements())} vs {[c.get_element_name(e) for e in top]}")
         stack, ok = [], True
         for kind, env in BEGIN_END.findall(src):
             if kind == "begin":
@@ -198,12 +210,16 @@ def eval_spec(spec, part, out):
     except Exception as exn:  # noqa
         fail("to_stack", f"raises {type(exn).__name__}", repr(exn))
     # 6. schemdraw drawing (slow: sampled)
-    if ce.digest(spec) % CTX["DRAW_MOD"] == 0 or part == "all-element-types":
+    if ce.digest(spec) % CTX["DRAW_MOD"] == 0 or part in ("all-element-types", "label-text"):
         try:
             d = c.to_drawing()
-            nlab = len([x for x in d.elements for l in getattr(x, "_userlabels", []) if l.label])
-            if nlab != len(top):
-                fail("to_drawing", "labelled component count differs from element count", f"{nlab} vs {len(top)}")
+            cnt = c.generate_element_identifiers(running=False)
+            got = sorted(l.label for x in d.elements for l in getattr(x, "_userlabels", []) if l.label)
+            wantl = sorted(ce.diagram_label(e.get_symbol(), e.get_label() or cnt[e]) for e in top)
+            if len(got) != len(top):
+                fail("to_drawing", "labelled component count differs from element count", f"{len(got)} vs {len(top)}")
+            elif got != wantl:
+                fail("to_drawing", "label-text-wrong", f"{got} vs {wantl}")
         except Exception as exn:  # noqa
             fail("to_drawing", f"raises {type(exn).__name__}", repr(exn))
         bump("drawing")
@@ -271,6 +287,11 @@ def make_jobs(a, tv):
     specs = [ctx(x) for x in leaves for ctx in ctxs]
     for i in range(0, len(specs), 12):
         jobs.append(("all-element-types", "list", tuple(specs[i:i + 12])))
+    # label text: every pool label (underscores / digits in several positions) on R, C, L, Q, W, Tlm - alone and mixed with unlabelled and
+    # differently labelled elements of the same type; CircuiTikZ and schemdraw text compared per element with `$<symbol>_{\\rm <whole label>}$`
+    lt = ce.label_text_specs()
+    for i in range(0, len(lt), 8):
+        jobs.append(("label-text", "list", tuple(lt[i:i + 8])))
     # larger random circuits
     rng = np.random.default_rng(a.seed + 9)
     n_rand = 150 if quick else 1000
@@ -291,13 +312,13 @@ def main(a):
     CTX["FV"] = [1e-6, 3.7, 1e9]
     CTX["DRAW_MOD"] = 40 if a.tier == "quick" else 60
     jobs, bound, n_rand, n_leaf, n_ctx = make_jobs(a, tv)
-    res = Result("C20", f"{bound}; alphabet classes = R (plain / labelled / label with underscore), reactive (C, L, Q, W, labelled or not), open-or-short leaf (R=inf / R=0), Tlm container "
+    res = Result("C20", f"{bound}; alphabet classes = R (plain / labelled from {ce.LABEL_POOL}: underscores and digits in several positions), reactive (C, L, Q, W, labelled from the same pool or not), open-or-short leaf (R=inf / R=0), Tlm container "
                  f"({len(tv)} variants: default, labelled, short / open-by-value / short-by-value / nested sub-circuits, two resistive phases, container in container; the last three kinds only in the contexts part); all {len(ce.classes())} registered element "
-                 f"types (plain and labelled) and all container variants in {n_ctx} contexts; {n_rand} random circuits with 6..{10 if a.tier == 'quick' else 14} leaves; to_drawing on 1/{CTX['DRAW_MOD']} of the cases "
+                 f"types (plain and labelled) and all container variants in {n_ctx} contexts; every pool label on R, C, L, Q, W, Tlm alone and mixed with unlabelled / other-labelled elements of the same type (exact CircuiTikZ and schemdraw label text); {n_rand} random circuits with 6..{10 if a.tier == 'quick' else 14} leaves; to_drawing on 1/{CTX['DRAW_MOD']} of the cases "
                  "and on every element type; only circuits whose get_impedances succeeds at 1e-6, 3.7 and 1e9 Hz are judged",
                  "shapes = ordered S/P trees incl. same-kind nesting and one-child connections; leaves = cartesian power of the alphabet (variant inside a class chosen by the case index); a case = one "
                  "circuit object, non-trivial when it can be simulated; checked: to_sympy variables == one per (element, parameter) over an own traversal, substituted variables <= {f}, to_latex, "
-                 "CircuiTikZ component count/names/begin-end, to_stack bracket discipline and entries, schemdraw component count")
+                 "CircuiTikZ component count / kind / exact label text per element / names / begin-end, to_stack bracket discipline and entries, schemdraw component count")
     order = np.random.default_rng(a.seed).permutation(len(jobs))
     allf = []
     with mp.get_context("fork").Pool(16) as pool:
